@@ -307,6 +307,9 @@ def replay_kani(job, scratch, prop):
     try:
         rc, out, _ = run_cmd(kani_cmd(job, td, playback="print"), crate, job.timeout * 2, job.mem_gb)
         tests = list(PLAYBACK_RE.finditer(out))
+        # two failed checks with the same concrete inputs yield the same test fn twice
+        seen = set()
+        tests = [m for m in tests if not (m.group("fn") in seen or seen.add(m.group("fn")))]
         res["generated"] = len(tests)
         res["tests"] = "\n".join(m.group("text") for m in tests)
         if not tests:
